@@ -45,7 +45,7 @@ pub struct Spec {
 }
 
 pub fn scenario_names() -> Vec<&'static str> {
-    vec!["status", "login-transfer", "cookie-transfer", "login-no-target", "big-frames-slow-discovery", "slow-discovery", "slow-filter", "slow-strategy"]
+    vec!["status", "login-transfer", "pipelined-login-transfer", "cookie-transfer", "login-no-target", "big-frames-slow-discovery", "slow-discovery", "slow-filter", "slow-strategy"]
 }
 
 fn scenario(name: &str) -> Case {
@@ -62,6 +62,8 @@ fn scenario(name: &str) -> Case {
             ];
         }
         "login-transfer" => case.script = Login::default().steps(),
+        // handshake + login start in one burst, login acknowledged + client information in one burst
+        "pipelined-login-transfer" => case.script = Login { pipelined: true, ..Default::default() }.steps(),
         "cookie-transfer" => {
             let cookie = valid_cookie(SECRET, 5, &case.cfg.client_addr.to_string(), CK_NAME, CK_UUID, &[]);
             case.script = Login { intent: 3, auth_cookie: Some(Some(cookie)), ..Default::default() }.steps();
